@@ -483,6 +483,12 @@ func (v *Visitor) Visit(s *df.AnalyzerState, source df.NodeWithTrace) {
 
 			closureNode := graphNode.ParentNode()
 
+			if closureNode.ClosureSummary == nil {
+				// The closure has not been summarized (it may be created but never called)
+				closureNode.ClosureSummary = df.BuildSummary(s, closureNode.Instr().Fn.(*ssa.Function))
+				s.FlowGraph.Sync()
+			}
+
 			if !closureNode.ClosureSummary.Constructed {
 				if ignoreNonSummarized {
 					break
